@@ -615,14 +615,23 @@ ISum(f, k) == IF k = 0 THEN 0 ELSE f[k] + ISum(f, k - 1)
 LLt(q) == LET d == Len(q.n) IN
           Q([a \in 1..d |-> [b \in 1..d |-> ISum([c \in 1..d |-> q.n[a][c] * q.n[b][c]], d)]], q.d * q.d)
 
-ANewPdfChol(d, R, s) ==
-    LET qL == Pick(LMENU(d), R, s)
+\* diagonal factors (for the diagonal density class)
+DLMENU(d) ==
+    CASE d = 1 -> << Q(<<<<2>>>>, 1), Q(<<<<1>>>>, 2), Q(<<<<3>>>>, 2) >>
+      [] d = 2 -> << Q(<< <<1, 0>>, <<0, 3>> >>, 1), Q(<< <<4, 0>>, <<0, 1>> >>, 2), Q(<< <<1, 0>>, <<0, 2>> >>, 3) >>
+      [] d = 3 -> << Q(<< <<1, 0, 0>>, <<0, 2, 0>>, <<0, 0, 3>> >>, 1), Q(<< <<2, 0, 0>>, <<0, 1, 0>>, <<0, 0, 5>> >>, 2),
+                     Q(<< <<3, 0, 0>>, <<0, 1, 0>>, <<0, 0, 2>> >>, 3) >>
+
+ANewPdfCholC(cls, d, R, s) ==
+    LET qL == Pick(IF cls = "DiagPDF" THEN DLMENU(d) ELSE LMENU(d), R, s)
         qS == MkSeq(R, LAMBDA i : LLt(qL[i]))
         qm == Pick(VEC(d), R, s)
-        o  == NewPdf(MkSeq(R, LAMBDA i : QM(qS[i])), MkSeq(R, LAMBDA i : QV(qm[i])))
+        o  == NewPdfGen(cls, "S", MkSeq(R, LAMBDA i : QM(qS[i])), MkSeq(R, LAMBDA i : QV(qm[i])), <<>>, <<>>)
     IN Emit(Append(heap, o),
-            Step("NewPdf", [cls |-> "PDF", mode |-> "S", Sigma |-> qS, mu |-> qm, chol |-> qL, ci |-> s % Len(LMENU(d))], NoObj,
+            Step("NewPdf", [cls |-> cls, mode |-> "S", Sigma |-> qS, mu |-> qm, chol |-> qL, ci |-> s % Len(LMENU(d))], NoObj,
                  NextId, ExpectObj(o), 0, NoObj, NoObj))
+
+ANewPdfChol(d, R, s) == ANewPdfCholC("PDF", d, R, s)
 
 CholOf(i) == LET st == CHOOSE h \in {hist[k] : k \in 1..Len(hist)} : h.id = i IN st.a.chol
 
